@@ -366,7 +366,7 @@ MAINLOOP:
 				watchingFile = true
 			}
 		}
-		if ws.updateDirWatches(oldResolvedCfgDir, filepath.Dir(resolvedCfgPath)) {
+		if ws.updateDirWatches(cleanedPathDir, oldResolvedCfgDir, filepath.Dir(resolvedCfgPath)) {
 			// The file was read before the watch on its new directory was
 			// in place, so a modification in between went unnoticed and
 			// nothing would ever tell us about it. Read it once more now
@@ -410,7 +410,7 @@ MAINLOOP:
 }
 
 // updateDirWatches returns true if it added a watch for a new directory.
-func (ws *WatchingSource) updateDirWatches(oldResolvedCfgDir, resolvedCfgDir string) bool {
+func (ws *WatchingSource) updateDirWatches(cfgDir, oldResolvedCfgDir, resolvedCfgDir string) bool {
 	if oldResolvedCfgDir == resolvedCfgDir {
 		return false
 	}
@@ -420,6 +420,12 @@ func (ws *WatchingSource) updateDirWatches(oldResolvedCfgDir, resolvedCfgDir str
 		ws.logger.Printf("failed to add new watch for symlink-resolved directory: %q: %s",
 			resolvedCfgDir, addErr)
 		return false
+	}
+	if oldResolvedCfgDir == cfgDir {
+		// The directory of the config path itself stays watched whatever
+		// the path currently resolves to: that is where the path (a
+		// symlink, possibly) gets replaced.
+		return true
 	}
 	if removeErr := ws.watcher.Remove(oldResolvedCfgDir); removeErr != nil {
 		ws.logger.Printf("failed to remove old watch for old symlink-resolved directory: %q: %s",
